@@ -395,6 +395,26 @@ def run(chk):
                             if var_of(lhs) in from_collector and any(short(x.get("field") or "") == "initial_points" for x in walk(rhs)):
                                 ok, t = True, txt(q)
             chk.ob("C09-D2.candidates", f.key + f.sig, "candidates = refinement candidates minus initial points", ok, f.where, t[:160])
+            # ... and minus the samples that were delivered and are waiting for their parents: a point that is requested again is delivered twice
+            okw, tw = False, ""
+            for q in f.walk():
+                if q.get("k") == "CXXOperatorCallExpr" and q.get("op") == "-":
+                    ch = [x for x in q.get("c", []) if isinstance(x, dict)]
+                    rhs = strip(ch[-1])
+                    from_data = any((x.get("k") == "MemberExpr" and short(x.get("field") or "") == "data") or
+                                    (x.get("k") == "CXXMemberCallExpr" and any(short(y.get("field") or "") == "data" for g2 in [db.resolve(x)] if g2 is not None for y in g2.walk() if y.get("k") == "MemberExpr"))
+                                    for x in [rhs] + list(walk(rhs)))
+                    if not from_data and rhs is not None and rhs.get("k") == "DeclRefExpr":
+                        d2 = loc.get(rhs.get("did"))
+                        from_data = d2 is not None and any(x.get("k") == "MemberExpr" and short(x.get("field") or "") == "data" for x in walk(d2))
+                    if not from_data:
+                        continue
+                    # the subtraction may be skipped only when nothing is waiting
+                    guards = [(txt(strip(e)), tr) for e, tr in cond_edges_dominating(f, q)]
+                    if all("data" in g_ and "empty" in g_ for g_, tr in guards):
+                        okw, tw = True, txt(q)
+            chk.ob("C09-D2.candidates", f.key + f.sig, "candidates exclude the samples that are waiting in the construction data", okw, f.where,
+                   tw[:120] if okw else "a point whose sample was delivered before its parents is listed again; the second delivery puts values and points out of step")
 
     # ------------------------------------------------------------------ D3
     expand_rules(chk, db)
@@ -563,6 +583,22 @@ def run(chk):
                    "" if looks else "every record with a non-negative weight is erased: samples delivered for a tensor that is not admissible yet lose their record and are not found again "
                    "unless another list of candidates is requested")
     chk.floor("C09-D10.keep", nkeep, 1, "erase sites in clearTesnors")
+
+    # ------------------------------------------------------------------ D12 samples that wait in the construction data keep their values in a copy
+    chk.rule("C09-D12.restrict", "a grid copied in the middle of a construction with a subset of its outputs keeps the waiting samples with the values of exactly these outputs: every copy "
+                                 "constructor restricts the construction data with the range it copies, and restrictData keeps the entries [ibegin, iend) of every sample "
+                                 "(slice model; obligations of C11-D2.split that concern the construction data)")
+    from tsg.report import Check
+    from rules import c11
+    sub = Check("C11", chk.tier, chk.seed)
+    c11.run(sub)
+    chk.absorb(sub)
+    nrs = 0
+    for o in sub.obls:
+        if o["rule"] == "C11-D2.split" and ("restrict" in o["construct"]):
+            nrs += 1
+            chk.ob("C09-D12.restrict", o["function"], o["construct"], o["ok"], o["where"], o["detail"], o["expected"])
+    chk.floor("C09-D12.restrict", nrs, 6, "restriction obligations shared with C11")
 
     return ("Static rule discharge: must-pass-through of an insert-or-park sink in every loadConstructedPoint overload, who-may-remove for the parked samples, guard dominance for candidate "
             "appends, eject-after-register agreement of the two GridGlobal overloads, ordering of the single-point expansion, the strip insertion kernel, and the inverse relation between the upward and downward hierarchy maps (partial evaluation of "
